@@ -8,8 +8,11 @@ Client-state rig: drives the real client-side notification path
                                   registered on the pilot as add_pilots does)
 
 with real TaskManager / PilotManager / Task / Pilot objects built via __new__
-(plus the attributes the methods read).  Recording callbacks are registered
-through the real register_callback methods.  `advance` (publishing) is replaced
+(plus the attributes the methods read).  The pilots are handed to the task
+manager through the real TaskManager.add_pilots (which registers
+_pilot_state_cb on the real Pilot) and leave it through the real
+remove_pilots.  Recording callbacks are registered through the real
+register_callback methods.  `advance` (publishing) is replaced
 per instance by a recorder.  No threads, no clock, no network.
 
 One event is recorded per call of a real entry point, after it returned (or
@@ -25,6 +28,10 @@ N DONE, N+1 FAILED, N+2 CANCELED.
 
 Operations (JSON-able):
     ['notify', [[uid, code], ...]]
+    ['notify', [[uid, code, extras], ...]]   extras: further fields of the task
+                                             document (values may be None), see
+                                             TASK_DOC_FIELDS
+    ['remove_pilots', pid | [pid, ...]]      real TaskManager.remove_pilots
     ['bind', uid, pid]                       full task dict with 'pilot'
     ['pilot_final', pid, code, how, echo]    how: 'list' | 'single'
     ['pnotify', [[type, pid, code], ...]]
@@ -109,11 +116,30 @@ PILOT_DOC_FIELDS = {
 }
 
 
+# fields of a task document that Task._update copies besides 'state' and
+# 'pilot' (the binding has its own operation): what the agent publishes with a
+# full dict, e.g. a task that failed on the agent and is handed back for output
+# staging (stage_on_error) already carries exception / exception_detail /
+# exit_code.  Each comes absent, None or present.
+TASK_DOC_FIELDS = {
+    'exception'       : [None, 'RuntimeError("exit code: 1")'],
+    'exception_detail': [None, 'Traceback: task exited with exit code: 1'],
+    'exit_code'       : [None, 0, 1],
+    'stdout'          : [None, '', 'task stdout'],
+    'stderr'          : [None, 'task stderr'],
+    'return_value'    : [None, 'rv'],
+    'task_sandbox'    : [None, 'file://localhost/tmp/task.sandbox/'],
+    'target_state'    : [None, 'DONE', 'FAILED'],
+}
+
+
 def doc_kind(v):
     if v is None:
         return 'None'
     if isinstance(v, dict):
         return 'dict(%s)' % '+'.join(sorted(v)) if v else 'dict()'
+    if isinstance(v, int):
+        return 'int%d' % v
     return 'str' if v else 'empty'
 
 
@@ -123,6 +149,10 @@ class FakeSub(object):
 
     def stop(self):
         self.stopped += 1
+
+
+class FakeSession(object):
+    uid = 'rp.session.verif'
 
 
 class FakePilot(object):
@@ -148,6 +178,7 @@ class ClientRig(object):
         self.calls  = list()     # pilots whose callbacks ran with a final state
         self.stray  = 0          # callbacks for pilots nobody registered
         self.published   = list()
+        self.control     = list()     # what the task manager put on the control channel
         self.cb_list_sig = False
 
         log = rpshim.NullLog()
@@ -167,6 +198,7 @@ class ClientRig(object):
         tm._closed     = False
         tm._task_info  = collections.defaultdict(dict)
         tm.advance     = self._tm_advance
+        tm.publish     = lambda *a, **k: self.control.append(a)
         self.tm = tm
 
         for uid in self.tasks:
@@ -194,9 +226,8 @@ class ClientRig(object):
         for pid in self.pilots:
             pilot = self._make_pilot(pid)
             pm._pilots[pid] = pilot
-            # as TaskManager.add_pilots does
-            pilot.register_callback(tm._pilot_state_cb)
-            tm._pilots[pid] = pilot
+            # the real path: attach_tmgr, as_dict, register _pilot_state_cb
+            tm.add_pilots(pilot)
             pilot.register_callback(self._pilot_cb_pilot)
         pm.register_callback(self._pilot_cb_mgr)
 
@@ -240,7 +271,7 @@ class ClientRig(object):
         p = Pilot.__new__(Pilot)
         p._descr         = {'uid': pid, 'resource': 'local.localhost', 'runtime': 10}
         p._pmgr          = self.pm
-        p._session       = None
+        p._session       = FakeSession()
         p._prof          = self.pm._prof
         p._uid           = pid
         p._state         = rps.NEW
@@ -252,6 +283,9 @@ class ClientRig(object):
         p._tmgr          = None
         p._nodelist      = None
         p._exit_on_error = False
+        for k in ('_pilot_jsurl', '_pilot_jshop', '_endpoint_fs', '_resource_sandbox',
+                  '_session_sandbox', '_pilot_sandbox', '_client_sandbox'):
+            setattr(p, k, ru.Url('file://localhost/tmp/%s/%s/' % (pid, k.strip('_'))))
         p._callbacks[rpc.PILOT_STATE][p._default_state_cb.__name__] = {
                 'cb': p._default_state_cb, 'cb_data': None}
         return p
@@ -340,10 +374,18 @@ class ClientRig(object):
         mark = self._mark()
 
         if kind == 'notify':
-            batch = [[u, int(s)] for u, s in op[1]]
-            dicts = [{'type': 'task', 'uid': u, 'state': TNAMES[s]} for u, s in batch]
+            batch = [[e[0], int(e[1])] for e in op[1]]
+            dicts = list()
+            docs  = list()
+            for e in op[1]:
+                d = {'type': 'task', 'uid': e[0], 'state': TNAMES[int(e[1])]}
+                extras = e[2] if len(e) > 2 and e[2] else {}
+                d.update(copy.deepcopy(extras))
+                docs.append(','.join('%s=%s' % (k, doc_kind(extras[k]))
+                                     for k in sorted(extras)) or 'plain')
+                dicts.append(d)
             raised, ret = self._notify(dicts)
-            ev = {'ev': 'Notify', 'batch': batch, 'iso': []}
+            ev = {'ev': 'Notify', 'batch': batch, 'docs': docs, 'iso': []}
 
         elif kind == 'bind':
             uid, pid = op[1], op[2]
@@ -360,6 +402,11 @@ class ClientRig(object):
             raised, ret = self._call(self.tm._pilot_state_cb,
                                      [fake] if how == 'list' else fake)
             ev = {'ev': 'PilotFinal', 'pilot': pid, 'pst': code}
+
+        elif kind == 'remove_pilots':
+            arg = op[1]
+            raised, ret = self._call(self.tm.remove_pilots, arg)
+            ev = {'ev': 'RemovePilots', 'pilots': list(ru.as_list(arg))}
 
         elif kind == 'pnotify':
             batch = [[e[0], e[1], int(e[2])] for e in op[1]]
@@ -412,8 +459,8 @@ class ClientRig(object):
            uid; an empty remainder leaves the tasks where they were'''
         batch = ops[k][1]
         out   = list()
-        for rm in sorted(set(u for u, _ in batch)):
-            rest = [[u, s] for u, s in batch if u != rm]
+        for rm in sorted(set(e[0] for e in batch)):
+            rest = [e for e in batch if e[0] != rm]
             if rest:
                 other = ClientRig(self.tasks, self.pilots, self.init_bound)
                 tr    = other.run(list(ops[:k]) + [['notify', rest]], iso=False)
